@@ -16,7 +16,7 @@ from bctmc.tally import Tally
 PROPERTY = 'C03'
 RULE = ('a fixed family of ~100 structured graphs on 7-10 nodes (bctmc/named.py: paths, cycles, stars, wheels, cliques, '
         'bipartite, ladders, trees, unions with isolated nodes, DAGs, tournaments; binary, lengths {1,2},{1,2,3}, near-tie) and '
-        'every labelled digraph / undirected graph of the stated families (binary n<=4 dir, n<=5 und; '
+        'every labelled digraph / undirected graph of the stated families (binary n<=4 dir, n<=5 und, and all 2^20 five-node digraphs for distance_bin/breadthdist/reachdist; '
         'lengths {1,2,3} and the near-tie alphabet {1, 2, 2+2^-20} (1+1 is shorter than 2+2^-20 by less than any common tolerance) on 3-node digraphs and 4-node graphs; weights {1,1/2,1/4} for inv/log; thorough adds '
         'lengths {1,2} on all 4-node digraphs and 5-node graphs, binary n=6 und, n=5 dir with <=... see families '
         'counter); non-trivial = graph with an unreachable ordered pair and a pair at distance >= 2 hops, or '
@@ -31,6 +31,7 @@ FAMILIES = {
     # name: (kind, directed, n, alphabet, tiers)
     'bin_dir2': ('bin', True, 2, BIN, 'q'), 'bin_dir3': ('bin', True, 3, BIN, 'q'),
     'bin_dir4': ('bin', True, 4, BIN, 'q'),
+    'bin_dir5_reach': ('reach', True, 5, BIN, 'q'),      # all 2^20 digraphs, the three binary reachability routines only
     'bin_und3': ('bin', False, 3, BIN, 'q'), 'bin_und4': ('bin', False, 4, BIN, 'q'),
     'bin_und5': ('bin', False, 5, BIN, 'q'), 'bin_und6': ('bin', False, 6, BIN, 't'),
     'len_dir3': ('len', True, 3, (0, 1, 2, 3), 'q'),
@@ -190,9 +191,31 @@ def check_lengths(t, case, L, floyd_arg, transform, binary, wei_arg=None):
     return D, allowed
 
 
+def check_reach(t, case, X):
+    """distance_bin / breadthdist / reachdist against BFS (cheap: used for the 2^20 five-node digraphs)"""
+    n = len(X)
+    D = orc.bfs_dist(X)
+    off = orc.offdiag(n)
+    out = call(t, 'distance_bin', case, bct.distance_bin, X)
+    if out is not None:
+        cmp_matrix(t, 'distance_bin', 'distance', case, out, D)
+    for fname in ('breadthdist', 'reachdist'):
+        out = call(t, fname, case, getattr(bct, fname), X)
+        if out is not None:
+            R, Dd = out
+            cmp_matrix(t, fname, 'distance', case, Dd, D, offdiag_only=True)
+            Rb = np.asarray(R) != 0
+            if Rb.shape != D.shape or not np.array_equal(Rb[off], np.isfinite(D)[off]):
+                t.viol(fname, 'reachability_flag', case, observed=Rb, expected=np.isfinite(D))
+    fin = np.isfinite(D)
+    return (not fin.all()) and bool((D[fin] >= 3).any())
+
+
 def check_case(t, name, X, case):
     kind = NAMED[name] if name in NAMED else FAMILIES[name][0]
     n = len(X)
+    if kind == 'reach':
+        return check_reach(t, case, X)
     if kind == 'bin':
         D, allowed = check_lengths(t, case, X, X, None, True, wei_arg=X)
         fin = np.isfinite(D)
